@@ -1,11 +1,16 @@
 #!/bin/bash
 # runs every registered check (default tier quick) on the current tree and prints one line each
+# usage: run_all.sh [tier] [evidence-dir]   (evidence-dir: write evidence/replays elsewhere)
 tier=${1:-quick}
-cd /verif
+here=$(cd "$(dirname "$0")" && pwd)
+cd "$here"
+if [ -n "$2" ]; then export LSVERIF_EVIDENCE_DIR="$2/evidence" LSVERIF_REPLAY_DIR="$2/replays"; mkdir -p "$2/evidence" "$2/replays"; fi
+mkdir -p "$here/target"
 fail=0
 for p in C01 C02 C03 C04 C05 C06 C07 C08 C09 C10 C11 C12 C13 C14 C15 C16 C17 C18 C19 C20; do
-  ./check $p --tier $tier > /verif/target/last-$p.out 2> /verif/target/last-$p.err; rc=$?
-  echo "$p rc=$rc $(tail -1 /verif/target/last-$p.err | cut -c1-200)"
+  s=$(date +%s)
+  ./check $p --tier $tier > "$here/target/last-$p.out" 2> "$here/target/last-$p.err"; rc=$?
+  echo "$p rc=$rc $(( $(date +%s) - s ))s $(tail -1 "$here/target/last-$p.err" | cut -c1-220)"
   [ $rc -ne 0 ] && fail=1
 done
 exit $fail
